@@ -6,7 +6,9 @@
    which the wrapper only warns about). *)
 From SV Require Import Model.Rows Model.Intervals Spec.IntervalDefs Proof.RowsFacts
   Proof.IntervalsChecks Proof.IntervalsSort Proof.IntervalsOverlap Proof.IntervalsContain
-  Proof.IntervalsTouch Proof.IntervalsBreaks.
+  Proof.IntervalsTouch Proof.IntervalsBreaks Proof.IntervalsNeighbour Proof.IntervalsSortTime
+  Proof.IntervalsSplit.
+From Coq Require Import Permutation.
 
 (* ---------------- fully_contained_in ---------------- *)
 
@@ -141,3 +143,73 @@ Theorem C17_from_break_spec : forall rs sb nb left,
   end.
 Proof. exact from_break_eq_spec. Qed.
 Print Assumptions C17_from_break_spec.
+
+(* ---------------- split_by_containment ---------------- *)
+
+(* one group per container, holding exactly the things assigned to it (same assignment as
+   fully_contained_in), in order; empty groups for containers without things *)
+Theorem C17_split_by_containment_eq_groups : forall things cs,
+  fc_pre things cs ->
+  split_by_containment things cs = Ok (false, groups_spec fc_spec_strict things cs).
+Proof. exact split_by_containment_groups. Qed.
+Print Assumptions C17_split_by_containment_eq_groups.
+
+Theorem C17_split_by_containment_eq_groups_literal_partial : forall things cs,
+  fc_pre things cs -> no_zero_on_end things cs ->
+  split_by_containment things cs = Ok (false, groups_spec fc_spec_lit things cs).
+Proof. exact split_by_containment_groups_literal. Qed.
+Print Assumptions C17_split_by_containment_eq_groups_literal_partial.
+
+(* ---------------- abs_time_to_prev_next_interval ---------------- *)
+
+(* sorted things of non-negative length (they may even overlap), sorted non-overlapping intervals
+   of non-negative length: minimum distance to the previous / next interval, -1 if none *)
+Theorem C17_time_to_prev_next_spec : forall things ivs,
+  atp_pre things ivs ->
+  abs_time_to_prev_next_interval things ivs =
+  Ok (negb (check_time_sorted (map re things)), atp_spec things ivs).
+Proof. exact abs_time_to_prev_next_spec. Qed.
+Print Assumptions C17_time_to_prev_next_spec.
+
+Theorem C17_time_to_prev_natural_definition : forall ivs th,
+  Forall (fun iv => rt iv < re iv) ivs -> prev_spec_nat ivs th = prev_spec ivs th.
+Proof. exact prev_spec_nat_eq. Qed.
+Print Assumptions C17_time_to_prev_natural_definition.
+
+Theorem C17_time_to_prev_next_unsorted_rejected : forall things ivs,
+  (~ sorted things -> abs_time_to_prev_next_interval things ivs = Err 1) /\
+  (sorted things -> ~ sorted ivs -> abs_time_to_prev_next_interval things ivs = Err 2).
+Proof. exact abs_time_to_prev_next_unsorted_rejected. Qed.
+Print Assumptions C17_time_to_prev_next_unsorted_rejected.
+
+(* ---------------- sort_by_time, stable_sort / stable_argsort ---------------- *)
+
+(* output is a rearrangement sorted by (time, channel); on the single-key path it is the stable
+   one (rows with equal (time, channel) keep their input order) *)
+Theorem C17_sort_by_time_spec : forall rs,
+  let out := sort_by_time rs in
+  Permutation rs out /\ tc_sorted out /\
+  (sbt_range_too_large rs = false -> forall x, filter (tc_eqb x) out = filter (tc_eqb x) rs).
+Proof. exact sort_by_time_spec. Qed.
+Print Assumptions C17_sort_by_time_spec.
+
+Theorem C17_sort_by_time_is_stable_sort : forall rs,
+  sbt_range_too_large rs = false -> is_stable_sort_of rs (sort_by_time rs) = true.
+Proof. exact sort_by_time_is_stable_sort. Qed.
+Print Assumptions C17_sort_by_time_is_stable_sort.
+
+(* the key's no-overflow side condition, explicit: under it every key fits in int64 *)
+Theorem C17_sort_key_fits_int64 : forall rs r,
+  In r rs -> (sbt_tmax rs - sbt_tmin rs + 1) * sbt_cm1 rs <= INT64_MAX + 1 ->
+  0 <= sbt_key rs r <= INT64_MAX.
+Proof. exact sbt_key_fits. Qed.
+Print Assumptions C17_sort_key_fits_int64.
+
+Theorem C17_stable_sort_kind_guard : forall keys kind,
+  (kind <> 0 -> stable_sort keys kind = Err 5 /\ stable_argsort keys kind = Err 5) /\
+  (kind = 0 -> exists l il, stable_sort keys kind = Ok l /\ stable_argsort keys kind = Ok il /\
+      Permutation keys l /\ key_sorted (fun x => x) l /\
+      (forall k, filter (fun y => y =? k) l = filter (fun y => y =? k) keys) /\
+      l = map (fun i => nth i keys 0) il).
+Proof. exact stable_sort_kind_guard. Qed.
+Print Assumptions C17_stable_sort_kind_guard.
